@@ -62,6 +62,9 @@ def scenarios(prop, tier, seed):
         sc("default_s3i1", 2, 3, 1, s1, kt, hyps=kt_pos)
         sc("kt0_finish_s4i2", 2, 4, 2, s2, 0.0, kt_finish=fin, hyps=fin_h)
         sc("finish_s6i3", 2, 6, 3, s1, 0.5, kt_finish=fin, hyps=fin_h)
+        # steps not a multiple of inner_steps: the schedule is spread over the loops actually run (steps // inner)
+        sc("finish_s5i2", 2, 5, 2, s2, 1.0, kt_finish=fin, hyps=fin_h)
+        sc("finish_s7i3", 2, 7, 3, s1, 0.5, kt_finish=fin, hyps=fin_h)
         sc("finish_s8i2", 2, 8, 2, s2, kt, kt_finish=fin, hyps=kt_pos + fin_h, tier_="thorough")
         # long histories with few forks: n forced rejections (the step size collapses), then free steps
         sc("ratio_rej16_s18i1", 2, 18, 1, s1, 1.0, kt_ratio=0.5, valid=REJ(16))
@@ -95,6 +98,8 @@ def scenarios(prop, tier, seed):
         av, asc = ACC(7)
         sc("conv_acc_s7i1", 2, 7, 1, s1, 0.0, conv=cv, hyps=cv_h, flags=("count",), valid=av, score=asc)
         sc("conv_free_s7i1", 2, 7, 1, s2, 0.0, conv=cv, hyps=cv_h, flags=("count",), tier_="thorough")
+        # a fully rejected loop, a fully accepted one, then free steps (the step-size adaptation has something to do)
+        sc("conv_rej2_acc2_s6i2", 2, 6, 2, s1, 0.0, conv=cv, hyps=cv_h + [T.fcmp("fle", F("s0"), 1.0)], flags=("count",), valid=REJ(2) + [True, True], score=[None] * 3 + [50.0, 60.0])
     return [s for s in out if tier == "thorough" or s["tier"] == "quick"]
 
 
@@ -198,6 +203,36 @@ def run_mir(res, prop, tier, seed):
                 qa = arm_queries(scn2, spec, hyps, arms, panics, flag, tier)
                 runs.append(dict(scn=scn2, spec=spec, hyps=hyps, arms=arms, panics=panics, flag=flag, qa=qa))
                 allq += [q for q, _ in qa]
+    # C20, "with a convergence threshold the run is an exact prefix of the run without it": the same scenario is
+    # executed a second time with the threshold removed (same symbolic inputs, same script); for every pair of
+    # histories the query asks for a call index at which the two runs propose different parameter vectors
+    prefix_runs = []
+    if prop == "C20":
+        for scn in scenarios(prop, tier, seed):
+            if scn["conv"] is None:
+                continue
+            try:
+                scnA = dict(scn, mode="A")
+                specA, hypsA = build_spec(scnA)
+                armsA, _ = mopt.run_spec(ex, specA)
+                scnN = dict(scn, conv=None, mode="A")
+                specN, hypsN = build_spec(scnN)
+                armsN, _ = mopt.run_spec(ex, specN)
+            except Exception as e:
+                res.ob("mir:%s/prefix" % scn["name"], "mirsym", "undischarged", "MIR execution failed: %s: %s" % (type(e).__name__, str(e)[:300]))
+                continue
+            qa = []
+            for ia, a_ in enumerate(armsA):
+                for ib, b_ in enumerate(armsN):
+                    va, vb = a_["mon"]["vecs"], b_["mon"]["vecs"]
+                    nmin = min(len(va), len(vb))
+                    diff = T.bor(*[mopt.fne(x_, y_) for t_ in range(nmin) for x_, y_ in zip(va[t_], vb[t_])]) if nmin else False
+                    if diff is False:
+                        continue
+                    body = scn["hyps"] + hypsA + a_["pc"] + b_["pc"] + [diff]
+                    qa.append((Query("prefix%d_%d" % (ia, ib), body + mopt.exp_axioms(body), timeout=30 if tier == "quick" else 180, meta=dict(arm=(ia, ib))), (a_, b_)))
+            prefix_runs.append(dict(scn=scnA, scnN=scnN, spec=specA, specN=specN, qa=qa, pairs=len(armsA) * len(armsN)))
+            allq += [q for q, _ in qa]
     res.extra["mir_exec_s"] = round(time.time() - t0, 2)
     # interleave the scenarios so that a time budget touches all of them; on a tree that breaks the property most
     # undecided queries run into their cap, and the quick tier must still end
@@ -231,6 +266,45 @@ def run_mir(res, prop, tier, seed):
             what, obj, role = out
             st = res.violation(what, obj, role)
             res.ob(name, "mirsym+z3/R+replay", st, what, secs, dict(sample, counterexample=obj.get("rep", {}).get("cfg")))
+    for r in prefix_runs:
+        scn, qa = r["scn"], r["qa"]
+        name = "mir:%s/A[steps=%d,inner=%d]: with the convergence threshold the proposals are a prefix of the run without it (%d pairs of histories, %d with a comparable call)" % (
+            scn["name"], scn["steps"], scn["inner"], r["pairs"], len(qa))
+        secs = sum(q.secs for q, _ in qa)
+        sats = [(q, ab) for q, ab in qa if q.status == "sat"]
+        bad = [(q, ab) for q, ab in qa if q.status not in ("sat", "unsat")]
+        if not sats and not bad:
+            res.ob(name, "mirsym+z3/R", "discharged", "%d queries unsat" % len(qa), secs, dict(obligation=name, queries=len(qa)))
+            continue
+        done_ = False
+        for q, ab in sats[:8]:
+            repA = model_to_replay(r["scn"], r["spec"], None, q.model)
+            repN = model_to_replay(r["scnN"], r["specN"], None, q.model)
+            outs = {}
+            for prof in ("debug", "release"):
+                oa, _ = optreplay.run_native(repA, prof)
+                on, _ = optreplay.run_native(repN, prof)
+                outs[prof] = (oa, on)
+            def first_diff(oa, on):
+                if oa is None or on is None or oa.get("panicked") or on.get("panicked"):
+                    return None
+                for t_, (x_, y_) in enumerate(zip(oa["vecs"], on["vecs"])):
+                    if x_ != y_:
+                        return t_
+                return None
+            fd = [first_diff(*outs[prof]) for prof in ("debug", "release")]
+            if all(f_ is not None for f_ in fd):
+                oa, on = outs["debug"]
+                what = "with convergence=%s the run proposes %s at call %d, the run without a threshold proposes %s (cfg=%s, scenario %s)" % (
+                    repA["cfg"]["conv"], oa["vecs"][fd[0]], fd[0], on["vecs"][fd[0]], json.dumps(repA["cfg"]), scn["name"])
+                st = res.violation(what, dict(kind="opt-prefix", rep=repA, rep_without=repN, native=dict(first_difference=fd[0])), dict(flag="prefix", clause="prefix-of-unthresholded-run"))
+                res.ob(name, "mirsym+z3/R+replay", st, what, secs, dict(obligation=name, counterexample=repA["cfg"]))
+                done_ = True
+                break
+        if not done_:
+            if sats:
+                res.inconclusive.append(dict(obligation=name, note="solver counterexample(s) for %d history pairs, none reproduced natively" % len(sats)))
+            res.ob(name, "mirsym+z3/R", "undischarged", "%d sat candidates not reproduced, %d undecided of %d" % (len(sats), len(bad), len(qa)), secs, dict(obligation=name))
     import mprops
     res.functions += mprops.used_fns(ex)
     res.stubs += mprops.summaries_used()
